@@ -360,3 +360,54 @@ def units_context_independence(cx, what, units):
     cx.assume_denominators_nonzero("partition sums > 0")
     cx.prove_eq("trace_outside", numpy.trace(outside), 1)
     cx.prove_eq("same_state_inside_units_context", inside, outside, tol=1e-9)
+
+
+@harness("C14", "vibronic_aggregate_states",
+         quick=[dict(cond="thermal", limit="weak_coupling"), dict(cond="thermal_excited_state", limit="weak_coupling"),
+                dict(cond="thermal_excited_state", limit="strong_coupling")],
+         thorough=[dict(cond=c, limit=l, nmax=n) for (c, l) in (("thermal", "weak_coupling"),
+                   ("thermal_excited_state", "weak_coupling"), ("thermal_excited_state", "strong_coupling"))
+                   for n in (2, 3)],
+         functions=[F_AB + ":AggregateBase.get_DensityMatrix", F_AB + ":AggregateBase._thermal_population"],
+         bound="uncoupled dimer of two-level molecules with one vibrational mode each (2, thorough 3, levels per "
+               "electronic state) and a bath; temperature symbolic in [50, 400] K, the vibronic Hamiltonian concrete: "
+               "the state is handed out (no exception), is Hermitian with unit trace and non-negative diagonal, and "
+               "lives in the band it is defined on",
+         out="coupled vibronic aggregates (the eigen-decomposition of the concrete 12x12 matrix would be the real "
+             "LAPACK one)")
+def vibronic_aggregate_states(cx, cond, limit, nmax=2):
+    import quantarhei as qr
+    with cx.concrete():
+        ta = qr.TimeAxis(0.0, 8, 1.0)
+        mols = []
+        with qr.energy_units("1/cm"):
+            cf = qr.CorrelationFunction(ta, dict(ftype="OverdampedBrownian", reorg=20, cortime=100, T=300))
+            for i in range(2):
+                m = qr.Molecule(elenergies=[0.0, 12000.0 + 100 * i])
+                m.set_dipole(0, 1, [1.0, 0.0, 0.0])
+                m.set_transition_environment((0, 1), cf)
+                mod = qr.Mode(frequency=300.0)
+                m.add_Mode(mod)
+                mod.set_nmax(0, nmax)
+                mod.set_nmax(1, nmax)
+                mod.set_HR(1, 0.1)
+                mols.append(m)
+        agg = qr.Aggregate(molecules=mols)
+        agg.build()
+    T = cx.real("T", 50.0, 400.0)
+    cx.assume(T >= 50, "temperature in [50, 400] K")
+    cx.assume(T <= 400)
+    try:
+        rho = agg.get_DensityMatrix(condition_type=cond, relaxation_theory_limit=limit, temperature=T)
+    except (IndexError, KeyError, AttributeError, ValueError) as e:
+        cx.fail("state_available", "get_DensityMatrix raised %s: %s" % (type(e).__name__, str(e)[:100]))
+        return
+    data = rho._data
+    cx.assume_denominators_nonzero("partition sum > 0")
+    cx.prove_eq("hermitian", data, numpy.conj(data.T))
+    cx.prove_eq("trace", numpy.trace(data), 1)
+    start = 0 if cond == "thermal" else int(agg.Nb[0])
+    for i in range(data.shape[0]):
+        cx.prove("diagonal_nonnegative[%d]" % i, data[i, i].real >= 0)
+        if i < start:
+            cx.prove_eq("outside_band_empty[%d]" % i, data[i, i], 0)
